@@ -216,4 +216,35 @@ def check(case):
                     sig += ':point-rule-vs-exact-integral'
                 fails.append((sig, 'near field %s vs far field %s at %.3g wavelengths (%.3g of the pattern maximum)'
                               % (e.tolist(), Eff.tolist(), r / lam, d / emax)))
+    # ---- the same values when the points are asked for as a table: row i of a 2 x 3 x 2 request carries the field
+    # at point i (each row compared with a single-point request at the coordinates the program lists for it; the
+    # single-point values are what the reference was compared with above)
+    anchor = None
+    for spec in case['pts']:
+        if spec['shell'] != 'far':
+            o_ = place(spec, topo, lam, ground)
+            if dist_to_structure(o_, topo, ground) >= maxseg:
+                anchor = o_
+                break
+    if anchor is not None and not fails:
+        kw = {} if pw is None else {'pwr': pw}
+        inc = [0.7 * maxseg, 1.1 * maxseg, 0.9 * maxseg]
+        m.compute_near_field([float(x) for x in anchor], inc, [2, 3, 2], **kw)
+        co = np.array(m.near_field_coord, float)
+        Eg, Hg = np.array(m.e_field), np.array(m.h_field)
+        if co.shape != (3, 12) or Eg.shape != (12, 3) or Hg.shape != (12, 3):
+            fails.append(('near-table:shapes', 'coordinates %s, E %s, H %s for a 2 x 3 x 2 request' % (co.shape, Eg.shape, Hg.shape)))
+        else:
+            labels.append('near-table')
+            se, sh_ = np.abs(Eg).max(), np.abs(Hg).max()
+            for i in range(12):
+                pt = co[:, i]
+                if ground and pt[2] < 0:
+                    continue
+                m.compute_near_field([float(x) for x in pt], [1.0, 1.0, 1.0], [1, 1, 1], **kw)
+                e1, h1 = np.array(m.e_field[0]), np.array(m.h_field[0])
+                if np.abs(e1 - Eg[i]).max() > 1e-9 * se or np.abs(h1 - Hg[i]).max() > 1e-9 * sh_:
+                    fails.append(('near-table:row-vs-point', 'row %d of the table (point %s) carries E %s, H %s; asked for alone '
+                                  'the point gives E %s, H %s' % (i + 1, pt.tolist(), Eg[i].tolist(), Hg[i].tolist(), e1.tolist(), h1.tolist())))
+                    break
     return Result(fails=fails, nontrivial=bool(nt), labels=sorted(set(labels)))
